@@ -768,6 +768,7 @@ impl Model {
                     g.maybe.insert(c.clone());
                 }
                 let mut claimed: Vec<Id> = Vec::new();
+                let mut out_of_scope = false;
                 for i in ids {
                     let in_pel = g.pel.contains_key(&i);
                     if in_pel {
@@ -778,8 +779,11 @@ impl Model {
                                 g.pel.insert(i, (c.clone(), wall, if justid { cnt } else { cnt + 1 }));
                                 claimed.push(i);
                             } else {
-                                // entry deleted from the stream: Redis drops it from the PEL; DC -> keep it simple: drop
+                                // the entry is pending but no longer in the stream (XDEL / XTRIM): Redis 7 drops it
+                                // from the PEL, earlier versions transfer it; both are reference behaviour and lead to
+                                // different states, so the step is out of scope
                                 g.pel.remove(&i);
+                                out_of_scope = true;
                             }
                         }
                     } else if force && entries.contains_key(&i) {
@@ -790,6 +794,10 @@ impl Model {
                 if !claimed.is_empty() {
                     g.maybe.remove(&c);
                     g.consumers.insert(c.clone());
+                }
+                if out_of_scope {
+                    self.out_of_scope = true;
+                    return Exp::Any;
                 }
                 if justid {
                     Exp::Is(R::Arr(claimed.iter().map(|i| R::Bulk(fmt_id(*i).into_bytes())).collect()))
